@@ -587,7 +587,8 @@ def simplify_boolean_expressions(source: str) -> str:
 
         if isinstance(node.op, ast.And):
             # One of node.values is always False => Expression is always False
-            if any(isinstance(value, ast.Constant) and not value.value for value in node.values):
+            # Only the constant False: "x and 0" is 0 or x, not False
+            if any(core.match_template(value, ast.Constant(value=False)) for value in node.values):
                 yield node, ast.Constant(value=False, kind=None)
                 continue
 
@@ -611,7 +612,8 @@ def simplify_boolean_expressions(source: str) -> str:
 
         elif isinstance(node.op, ast.Or):
             # One of node.values is always True => Expression is always True
-            if any(isinstance(value, ast.Constant) and value.value for value in node.values):
+            # Only the constant True: "timeout or 30" is a number, not True
+            if any(core.match_template(value, ast.Constant(value=True)) for value in node.values):
                 yield node, ast.Constant(value=True, kind=None)
                 continue
 
